@@ -1,5 +1,5 @@
 (* Check/C06.v -- correspondence between /repo/css/parser (tokenizer.go,
-   parser.go, nth.go) and the models Css/Tok.v, Css/Parse.v.
+   parser.go, nth.go, colors.go) and the models Css/Tok.v, Css/Parse.v, Css/Color.v.
 
    The Go harness (go/cmd/c06) writes one `case` per implementation run: the
    entry point, its flags, the input as the list of code points of the (valid
@@ -10,16 +10,21 @@
    prelude/content/value, !important flag, at-rule content nil-ness.
    Not compared: float32 values of numeric tokens (strconv is trusted; the
    representation and the flag are compared), error messages.
+   CColor: ParseColorString; compared: invalid / currentColor / RGBA with the four float32
+   components as exact rationals against the model run with rnd32 / rnd64 (Css/Color.v floatA).
 
    codes: 0 agree; 1 results differ; 2 skipped (An+B value outside int64: Go's
    float32 -> int conversion is implementation-dependent there); 3 implementation panicked
    where the model returns a value; 4 model panics / runs out of fuel where the
    implementation returned. *)
-From Verif Require Export Base.GoSem Css.Token Css.TokenEq Css.Tok Css.Parse.
-From Coq Require Import List NArith ZArith Bool.
+From Verif Require Export Base.GoSem Css.Token Css.TokenEq Css.Tok Css.Parse Css.Color.
+From Coq Require Import List NArith ZArith Bool QArith.
 Import ListNotations.
 
 Inductive nth_out := NthNone | NthSome (a b : Z).
+(* what ParseColorString returned: the colour (float32 components as exact rationals), or a colour
+   with a non-finite component (only possible when a numeric token overflows float32: skipped) *)
+Inductive color_obs := ObsColor (c : color) | ObsNonFinite.
 
 Inductive case :=
 | CTok (skip : bool) (src : list N) (crashed : bool) (out : list token)
@@ -27,7 +32,8 @@ Inductive case :=
 | CBlocks (src : list N) (crashed : bool) (out : list compound)
 | CDecls (skipc skipw : bool) (src : list N) (crashed : bool) (out : list compound)
 | COneDecl (skip : bool) (src : list N) (crashed : bool) (out : list compound)   (* singleton *)
-| CNth (src : list N) (crashed : bool) (out : nth_out).
+| CNth (src : list N) (crashed : bool) (out : nth_out)
+| CColor (src : list N) (crashed : bool) (out : color_obs).
 
 (* the model of the code as it is now in /repo (all fix commits applied) *)
 Definition FX := true.
@@ -35,7 +41,8 @@ Definition FX := true.
 Inductive observable :=
 | OTokens (r : res (list token))
 | OCompounds (r : res (list compound))
-| ONth (r : res nth_out).
+| ONth (r : res nth_out)
+| OColor (r : res color_obs).
 
 Definition model_out (c : case) : observable :=
   match c with
@@ -48,6 +55,7 @@ Definition model_out (c : case) : observable :=
   | CNth src _ _ =>
       ONth (let* o := parse_nth_string FX src in
             Ok (match o with Some (a, b) => NthSome a b | None => NthNone end))
+  | CColor src _ _ => OColor (res_map ObsColor (parse_color_string floatA FX src))
   end.
 
 Definition cmp {A} (eqb : A -> A -> bool) (r : res A) (crashed : bool) (out : A) : N :=
@@ -72,9 +80,28 @@ Definition nth_skipped (r : res nth_out) : bool :=
   | _ => false
   end.
 
+Definition color_eqb (a b : color) : bool :=
+  match a, b with
+  | ColorInvalid, ColorInvalid | ColorCurrent, ColorCurrent => true
+  | ColorRGBA r g b a, ColorRGBA r' g' b' a' => Qeq_bool r r' && Qeq_bool g g' && Qeq_bool b b' && Qeq_bool a a'
+  | _, _ => false
+  end.
+Definition color_obs_eqb (a b : color_obs) : bool :=
+  match a, b with
+  | ObsColor x, ObsColor y => color_eqb x y
+  | _, _ => false
+  end.
+(* a numeric argument outside the float32 range / an integer that int(float32) cannot represent: skipped *)
+Definition color_skipped (src : list N) : bool :=
+  match tokenize FX true src with
+  | Ok ts => negb (color_in_domain (parse_one_component_value ts))
+  | _ => false
+  end.
+
 Definition check (c : case) : N :=
   match c, model_out c with
   | CNth _ cr out, ONth r => if nth_skipped r then 2%N else cmp nth_eqb r cr out
+  | CColor src cr out, OColor r => if color_skipped src then 2%N else cmp color_obs_eqb r cr out
   | CTok _ _ cr out, OTokens r => cmp tokens_eqb r cr out
   | CSheet _ _ _ cr out, OCompounds r | CBlocks _ cr out, OCompounds r
   | CDecls _ _ _ cr out, OCompounds r | COneDecl _ _ cr out, OCompounds r => cmp compounds_eqb r cr out
